@@ -221,7 +221,7 @@ func (p c14) AfterOp(x *Exec, task, idx int, op Op, out Outcome) {
 			return
 		}
 		for _, r := range out.Ret {
-			if _, installed := st.m.S[0].Pol["push"]; installed && r == "\"bad\"" {
+			if rejectsBad(x, st) && r == "\"bad\"" {
 				x.fail("rejected-value-visible:"+op.M, fmt.Sprintf("task %d: %s returned the value the push policy rejected", task, op))
 				return
 			}
@@ -498,8 +498,8 @@ func (c14) query(x *Exec, st *c14state, op Op, out Outcome, log []Consult) {
 func (c14) AfterStep(x *Exec, t *task, ev event, pre []string, held map[uintptr]bool) {
 	// concurrent configuration: nothing the policy rejected is ever visible
 	st := x.state.(*c14state)
-	if _, installed := st.m.S[0].Pol["push"]; !installed {
-		return // no policy, nothing is "rejected"
+	if !rejectsBad(x, st) {
+		return // no policy that rejects the value: nothing is "rejected"
 	}
 	d := x.w.dump(0)
 	_, slots := splitDump(d)
@@ -542,4 +542,22 @@ func (c14) End(x *Exec) {
 		sb.WriteString("|")
 	}
 	x.stats.ShapeSig = "conc:" + sb.String() + fmt.Sprint(x.sched)
+}
+
+// rejectsBad: is a push policy installed whose fault plan rejects "bad"?
+func rejectsBad(x *Exec, st *c14state) bool {
+	slot, installed := st.m.S[0].Pol["push"]
+	if !installed {
+		return false
+	}
+	spec := x.tr.Closures["push"+itoa(slot)]
+	if spec.Always {
+		return true
+	}
+	for _, v := range spec.RejectVals {
+		if v == "\"bad\"" {
+			return true
+		}
+	}
+	return false
 }
